@@ -25,5 +25,8 @@ Lemma tie_programs :
   prog_saver_close_gen = prog_saver_close.
 Proof. repeat split; reflexivity. Qed.
 
+Lemma tie_fields : print_fields_gen = print_fields /\ save_fields_gen = save_fields.
+Proof. split; reflexivity. Qed.
+
 Print Assumptions tie_run_turn.
 Print Assumptions tie_programs.
